@@ -188,6 +188,8 @@ class World:
         self._dir: str | None = None
         self.fail_file_open = False
         self.pending: list[tuple[str, str, tuple]] = []  # (kind, shmid, args)
+        self.io_result: list = []  # split mode: None while the job's I/O has not run, else the result awaiting delivery
+        self.split = False  # split mode: a disk job's I/O and the delivery of its result to the store are two events
 
         real_disk = disk.Disk
 
@@ -201,10 +203,12 @@ class World:
 
             def page_out(self, shmid, callback):
                 w.pending.append(("out", shmid, (shmid, callback)))
+                w.io_result.append(None)
                 w.on_job_start("out", shmid)
 
             def page_in(self, shmid, size, callback):
                 w.pending.append(("in", shmid, (shmid, size, callback)))
+                w.io_result.append(None)
                 w.on_job_start("in", shmid)
 
         self._real_disk = real_disk
@@ -323,9 +327,12 @@ class World:
                 evs.append(("rclose", k, i))
             evs.append(("purge", k))
         for j in range(len(self.pending)):
+            if self.io_result[j] is not None:
+                evs.append(("cb", j))  # split mode: the disk thread reports the result of I/O that already happened
+                continue
             for v in self.variants:
                 evs.append(("done", j, v))
-        if self.allow_age and self.aged_at is None and not self.writers and any(self.readers.values()):
+        if self.allow_age and self.aged_at is None and (not self.writers or self.allow_age == "writers") and (self.writers or any(self.readers.values())):
             evs.append(("age",))  # 16 minutes pass: every handle open now is older than the staleness window afterwards
         return evs
 
@@ -424,7 +431,11 @@ class World:
             if k not in self.ref_known:
                 self.bad("get_unknown_granted", "get granted for a key the store should not hold", f"get {k}")
             if k not in self.ref_written:
-                self.bad("get_before_writer_closed", "dataset readable before its writer finished", f"get {k}")
+                if k in self.writers and not self.fresh(self.writers[k]) and any(e[0][0] == "done" and e[1] == "in:ok" for e in self.trace):
+                    # the route through staleness: an unfinished dataset older than the window was paged out and back in
+                    self.bad("get_before_writer_closed", "unfinished dataset of a writer older than the staleness window became readable after a page-out/page-in round trip", f"get {k}")
+                else:
+                    self.bad("get_before_writer_closed", "dataset readable before its writer finished", f"get {k}")
             if buf.deser_fun != "des_" + k:
                 self.bad("deser_fun_mismatch", "decoding function differs from the one stored", f"{buf.deser_fun}")
             data = bytes(buf.view())
@@ -479,9 +490,43 @@ class World:
         self.ref_written.discard(k)
         self.ref_delayed.discard(k)
 
-    def ev_done(self, j: int, variant: str) -> None:
+    def ev_cb(self, j: int) -> None:
+        """split mode, second half of a disk job: the result of the I/O reaches the store's callback"""
         kind, shmid, args = self.pending.pop(j)
+        ok = self.io_result.pop(j)
         _, k, inc = self.job_key.pop(j)
+        current = self.incarnation.get(k, 0) == inc and k in self.ref_known
+        snap = lambda: (shmid in self.ns.segments, repr(self.mgr.datasets.get(k)))  # noqa: E731
+        before = snap()
+        args[-1](ok)
+        self.last_answer = f"{kind}:{'ok' if ok else 'failed'}"
+        self._after_job(kind, k, ok, current, before, snap, "delivery")
+
+    def _after_job(self, kind, k, ok, current, before, snap, variant) -> None:
+        if not current:
+            # a job that belongs to a dataset purged meanwhile must not touch a later dataset stored under that key
+            if k in self.ref_known and snap() != before:
+                self.bad("stale_disk_job_hit_new_dataset", "disk job of a purged dataset acted on a later dataset stored under the same key",
+                         f"key {k}, job {kind}/{variant}: {before} -> {snap()}")
+            return
+        if kind == "out":
+            if ok:
+                self.ref_resident.pop(k, None)
+                self.ref_ondisk.add(k)
+            else:
+                self._ref_remove(k)  # the store marks a failed page-out bad and drops the dataset
+        else:
+            if not ok:
+                self._ref_remove(k)  # a failed page-in drops the dataset
+
+    def ev_done(self, j: int, variant: str) -> None:
+        if self.split:
+            kind, shmid, args = self.pending[j]
+            _, k, inc = self.job_key[j]
+        else:
+            kind, shmid, args = self.pending.pop(j)
+            self.io_result.pop(j)
+            _, k, inc = self.job_key.pop(j)
         d = self._real_disk
         vd = self.mgr.disk
         results: list[bool] = []
@@ -489,7 +534,8 @@ class World:
 
         def spy(ok: bool):
             results.append(ok)
-            cb(ok)
+            if not self.split:
+                cb(ok)
 
         current = self.incarnation.get(k, 0) == inc and k in self.ref_known
         snap = lambda: (None if self.real else shmid in self.ns.segments, repr(self.mgr.datasets.get(k)))  # noqa: E731
@@ -519,22 +565,17 @@ class World:
         self.ns.fail_open = self.ns.fail_unlink = self.ns.fail_create = False
         self.fail_file_open = False
         ok = bool(results and results[0])
-        self.last_answer = f"{kind}:{'ok' if ok else 'failed'}"
-        if not current:
-            # a job that belongs to a dataset purged meanwhile must not touch a later dataset stored under that key
-            if k in self.ref_known and snap() != before:
+        if self.split:
+            if len(results) != 1:
+                raise HarnessError(f"disk job body reported {len(results)} results")
+            self.io_result[j] = ok
+            self.last_answer = f"{kind}-io:{'ok' if ok else 'failed'}"
+            if not current and k in self.ref_known and snap() != before:
                 self.bad("stale_disk_job_hit_new_dataset", "disk job of a purged dataset acted on a later dataset stored under the same key",
-                         f"key {k}, job {kind}/{variant}: {before} -> {snap()}")
+                         f"key {k}, job {kind}/{variant} (I/O half): {before} -> {snap()}")
             return
-        if kind == "out":
-            if ok:
-                self.ref_resident.pop(k, None)
-                self.ref_ondisk.add(k)
-            else:
-                self._ref_remove(k)  # the store marks a failed page-out bad and drops the dataset
-        else:
-            if not ok:
-                self._ref_remove(k)  # a failed page-in drops the dataset
+        self.last_answer = f"{kind}:{'ok' if ok else 'failed'}"
+        self._after_job(kind, k, ok, current, before, snap, variant)
 
     # ------------------------------------------------------------ invariants (C08) evaluated after every event
     def check_invariants(self, ev) -> None:
@@ -581,7 +622,7 @@ class World:
         )
         return (
             ds, m.free_space, m.pageout_all.locked(), m.pageout_count,
-            tuple((jk[0], jk[1], jk[2] == self.incarnation.get(jk[1], 0)) for jk in self.job_key),
+            tuple((jk[0], jk[1], jk[2] == self.incarnation.get(jk[1], 0)) for jk in self.job_key), tuple(self.io_result),
             tuple(sorted((self.shmid2key.get(n, n), bytes(b) == self.pattern(self.shmid2key[n]) if n in self.shmid2key else None) for n, b in self.ns.segments.items())),
             tuple(sorted(f for f in os.listdir(self._dir) if not f.endswith(".lost"))) if self._dir else (),
             tuple(sorted((k, self.fresh(b)) for k, b in self.writers.items())),
@@ -595,7 +636,8 @@ class World:
 
 def build(cfg: dict, hist: list, real: bool = False) -> World:
     w = World(cfg["capacity"], cfg["sizes"], tuple(cfg.get("variants", ("ok", "fail-early", "fail-late"))), real=real)
-    w.allow_age = bool(cfg.get("age"))
+    w.allow_age = cfg.get("age") or False  # True: readers may grow stale; "writers": writers too
+    w.split = bool(cfg.get("split"))
     for ev in hist:
         w.apply(tuple(ev))
     return w
@@ -624,9 +666,13 @@ def liveness_violations(cfg: dict, hist: list) -> list[tuple[str, str, str]]:
         ans = None
         for _ in range(len(w.sizes) + 3):
             while w.pending:
-                w.apply(("done", 0, "ok"))
+                w.apply(("cb", 0) if w.io_result[0] is not None else ("done", 0, "ok"))
+            if w.viol:
+                break  # a safety monitor fired while the jobs completed: that root cause is reported by its own monitor
             w.apply(req)
             ans = w.last_answer
+            if w.viol:
+                break
             if ans == "granted":
                 granted = True
                 break
